@@ -4,11 +4,11 @@
    generated block, together with byte-exact agreement of transmit() with
    write_block): what it guarantees is C02_witness_is_strict; the writer sets the
    header digit, never the randomisation bit, and the reference-format decoder
-   ref_noexc_decode (validated against libbz2) inverts it (see C01 for the stage
-   inverses; the composed statement is C02_stream_strict once Enc/StreamProofs.v
-   is in place). *)
+   ref_noexc_decode (the strict format minus nothing lbzip2 needs; validated
+   against libbz2) decodes the written stream to the input (C02_stream_strict). *)
 From Coq Require Import List NArith Arith Bool Lia.
-From LBZ Require Import Common.Bits Dec.Prog Dec.Format Dec.Policies Enc.EncModel Enc.EncFacts Gen.Consts.
+From LBZ Require Rle.RleModel.
+From LBZ Require Import Common.Bits Dec.Prog Dec.Format Dec.Policies Dec.DecProofs Dec.CrcProofs Enc.EncModel Enc.EncFacts Enc.StreamProofs Enc.EncCompose Gen.Consts.
 Import ListNotations.
 Local Open Scope N_scope.
 
@@ -30,3 +30,15 @@ Theorem C02_header_and_rand_bit :
   forall level ws, firstn 32 (write_stream level ws) = put 24 0x425A68 ++ put 8 (0x30 + level) /\
   forall w, firstn 1 (write_body w) = [false].
 Proof. exact header_rand_facts. Qed.
+
+(* the whole stream is accepted by the STRICT reference format (every delta step in
+   1..20, every used table complete, no missing run count, CRCs, sizes) and decodes
+   to the input - hence also by the reference format proper *)
+Theorem C02_stream_strict :
+  forall level (ws : list witness) (xs : list (list N)),
+    1 <= level <= 9 ->
+    Forall2 (fun w x => witness_ok (100000 * level) w = true /\ Forall (fun c => c < 256) x /\ x <> [] /\
+                        w_blk w = RleModel.rle1 x /\ w_crc w = N.lxor (crc_bytes mask32 x) mask32) ws xs ->
+    ref_noexc_decode (bytes_of_bits (pad_to_byte (write_stream level ws))) = Ok (concat xs) /\
+    ref_decode (bytes_of_bits (pad_to_byte (write_stream level ws))) = Ok (concat xs).
+Proof. exact stream_strict_both. Qed.
